@@ -51,6 +51,17 @@ type FuncContract struct {
 	Recursive map[string]bool
 	Fn        *ssa.Function
 	Set       *Set
+	LenCases  []LenCase
+}
+
+// LenCase: "lencase x 5 6" — besides the general run (which then assumes len(x) is none of the listed values, or
+// more precisely that not every lencase expression has one of its listed values) the function is verified once per
+// combination of listed lengths with that length concrete, so that stdlib models that are exact only for strings of
+// known length (hex decoding, digit parsing) apply.
+type LenCase struct {
+	Name string // parameter or parameter.Field as named in the function
+	Expr ast.Expr
+	Vals []uint64
 }
 
 type Lemma struct {
@@ -367,6 +378,24 @@ func (fc *FuncContract) clause(word, rest string) error {
 				fc.Recursive[strings.TrimSpace(n)] = true
 			}
 		}
+	case "lencase":
+		f := strings.Fields(rest)
+		if len(f) < 2 {
+			return fmt.Errorf("lencase <param[.Field]> <len>...")
+		}
+		e, err := pe("len(" + f[0] + ")")
+		if err != nil {
+			return err
+		}
+		lc := LenCase{Name: f[0], Expr: e}
+		for _, v := range f[1:] {
+			n, err := strconv.ParseUint(v, 10, 32)
+			if err != nil {
+				return err
+			}
+			lc.Vals = append(lc.Vals, n)
+		}
+		fc.LenCases = append(fc.LenCases, lc)
 	case "specfuel":
 		n, err := strconv.Atoi(rest)
 		if err != nil {
@@ -379,7 +408,7 @@ func (fc *FuncContract) clause(word, rest string) error {
 			return fmt.Errorf("codec <Message> decode|encode")
 		}
 		fc.Codec, fc.CodecDir = f[0], f[1]
-	case "pure", "inline", "trusted", "nopanic":
+	case "pure", "inline", "trusted", "nopanic", "lenonly":
 		fc.Flags[word] = true
 	default:
 		return fmt.Errorf("unknown clause %q", word)
